@@ -175,7 +175,17 @@ class Signal(np.lib.mixins.NDArrayOperatorsMixin):
 
         kw = dict()
         kw.update(self._time_slice(index[0]))
-        return type(self).like(self, self.data[index], **kw)
+        return type(self).like(self, self._index_data(index, 1), **kw)
+
+    def _index_data(self, index, nlead):
+        """Index the data; the first ``nlead`` indices are slices."""
+        data = self.data[index]
+        # Index arrays on later axes that are separated by a slice are moved to
+        # the front by NumPy, which would displace the time (frequency) axis.
+        lead = tuple(len(range(*s.indices(n))) for s, n in zip(index[:nlead], self.shape))
+        if data.shape[: len(lead)] != lead:
+            raise IndexError("Unsupported combination of indices on the sample axes.")
+        return data
 
     def get_axis(self, axis):
         """Axis number from an integer or axis label."""
@@ -497,7 +507,7 @@ class RadioSignal(Signal):
         kw.update(self._time_slice(index[0]))
         if len(index) > 1:
             kw.update(self._freq_slice(index[1]))
-        return type(self).like(self, self.data[index], **kw)
+        return type(self).like(self, self._index_data(index, 2), **kw)
 
     @property
     def nchan(self):
